@@ -221,4 +221,8 @@ def main(tier):
     # C12u: a pair whose value is undefined for one variable is skipped for that variable only (shared rule with C05d)
     import c05_skip
     c05_skip.rule_d(prog, chk, 2, rule="C12u", only_files=("src/Variogram/",))
+    # C12w: every normalisation of the variogram kernels is a weighted mean: the denominator accumulates the weight that the
+    # terms of the numerator carry (ratio_pairs)
+    import ratio_pairs
+    ratio_pairs.rule(prog, chk, "C12w", ("src/Variogram/",), 12)
     return chk.finish()
